@@ -27,6 +27,7 @@ LEVELS = {
     "C07": "model_checking",
     "C09": "model_checking",
     "C04": "model_checking",
+    "C11": "model_checking",
 }
 
 # property -> vlib module with run_property(prop, tier, report)
@@ -44,6 +45,7 @@ RUNNERS = {
     "C07": "types",
     "C09": "agg",
     "C04": "wac",
+    "C11": "targets",
 }
 
 
